@@ -161,6 +161,13 @@ def r3_framing(ctx):
     LV = unparse(lps[0].target) if lps else "line"
     ok = len(wcalls) == 1 and unparse(wcalls[0].args[0]) == f"({LV} + '\\n').encode('utf-8')"
     ctx.ob("C12.R3", SNK, "DiskSink.write", wcalls[0] if wcalls else wr, "each line is written as utf-8 bytes followed by exactly one LF", ok)
+    # batched writing re-opens the file once per batch (`with self` inside the loop): a truncating mode may only apply to the first open
+    snk = ctx.model.cls(SNK, "DiskSink")
+    reopen = [w for w in ast.walk(wr) if isinstance(w, ast.With) and unparse(w.items[0].context_expr) == "self" and any(isinstance(a, (ast.While, ast.For)) for a in ancestors(w))]
+    downgrade = [x for m_, f in snk.methods.items() if m_ != "__init__" for x in ast.walk(f) if isinstance(x, ast.Assign) and any(is_self_attr(t, "_mode") for t in x.targets)
+                 and "'a'" in unparse(x.value)]
+    ctx.ob("C12.R3", SNK, "DiskSink.write", reopen[0] if reopen else wr, "a sink opened with a truncating mode truncates once: after the first close the mode is downgraded to append "
+           "(the file is re-opened for every batch)", (not reopen) or bool(downgrade), stmt="truncate once")
     strips = [c for c in walk_shallow(rd) if isinstance(c, ast.Call) and call_tail(c) in ("rstrip", "strip")]
     RL = (bound_names(rd, lambda v: isinstance(v, ast.Call) and call_tail(v) == "readline") or ["line"])[0]
     ok = len(strips) == 1 and unparse(strips[0]) == f"{RL}.rstrip('\\r\\n')"
@@ -308,6 +315,7 @@ def r7_csv_dialect(ctx):
 
 
 CONTROLS = [
+    ("batched sink truncates on every batch", SNK, M.delete_stmt("DiskSink.__exit__", M.text_has("if self._mode[:1] == 'w': self._mode = 'a' + self._mode[1:]")), "C12.R3"),
     ("backslash escape injected into the csv dialect", RDR, M.replace_expr("CsvReader.__init__", "dialect", "{'escapechar': '\\\\', **dialect}", nth=0), "C12.R7"),
     ("only interior ? after compaction", RDR, M.replace_expr("ArffDataReader._dense", "compact[:2] == '?,' or ',?,' in compact or compact[-2:] == ',?'", "',?,' in compact"), "C12.R6"),
     ("quote checks chained", RDR, lambda tree: _chain_quote_ifs(tree), "C12.R5"),
